@@ -366,7 +366,12 @@ pub fn pool_op(rng: &mut Rng, c: &Corpus, sw: &Swarm, n: usize, focus: &str) -> 
             }
             7 => {
                 let l = rng.range(0, 4) as usize;
-                EOp::SumOf((0..l).map(|_| idx(rng, n)).collect())
+                let is: Vec<usize> = (0..l).map(|_| idx(rng, n)).collect();
+                match rng.below(3) {
+                    0 => EOp::SumOf(is),
+                    1 => EOp::Msm(is, (0..l).map(|_| scalar_hex(rng)).collect()),
+                    _ => EOp::MultiscalarMul(is, (0..l).map(|_| scalar_hex(rng)).collect()),
+                }
             }
             _ => EOp::Sub(idx(rng, n), idx(rng, n)),
         },
@@ -377,7 +382,16 @@ pub fn pool_op(rng: &mut Rng, c: &Corpus, sw: &Swarm, n: usize, focus: &str) -> 
             3 => EOp::NegOfMul(idx(rng, n), scalar_hex(rng)),
             4 => EOp::MulOfNeg(idx(rng, n), scalar_hex(rng)),
             5 => EOp::AffineRoundTrip(idx(rng, n)),
-            _ => EOp::IntoAffine(idx(rng, n)),
+            _ => match rng.below(8) {
+                0 => EOp::ClearCofactor(idx(rng, n)),
+                1 => EOp::MulByCofactorToGroup(idx(rng, n)),
+                2 => EOp::AffineMulBigint(idx(rng, n), vec![rng.next_u64(), rng.below(3)]),
+                3 => EOp::AffineNeg(idx(rng, n)),
+                4 => EOp::AffineMulFr(idx(rng, n), scalar_hex(rng)),
+                5 => EOp::AddAffine(idx(rng, n), idx(rng, n)),
+                6 => EOp::IntoGroup(idx(rng, n)),
+                _ => EOp::IntoAffine(idx(rng, n)),
+            },
         },
         5 => match rng.below(4) {
             0 | 1 => {
